@@ -27,6 +27,11 @@ def region(name):
     return deco
 
 
+@region('any')
+def _any(k, *a):
+    return z3.BoolVal(True)
+
+
 def load_known():
     if not os.path.exists(KNOWN): return []
     return json.load(open(KNOWN)).get('findings', [])
@@ -220,22 +225,49 @@ def decide_one(dec, rec, k, run, ob, base, pre, goal, known, reported_known, job
         excl.append(z3.Not(reg))
     attempts = 0
     extra = list(excl)
+    first_key = None; ub_refined = False
+    final = rec.setdefault('_final', {})
+
+    def fin(status):
+        nonlocal first_key
+        if first_key is not None: final[first_key] = status
+        return status
     while True:
         attempts += 1
         r, m = dec.check(base + pre + extra, goal, ob.rename, name)
+        if attempts == 1: first_key = dec.last_key
         if r == 'unsat':
-            return 'discharged'
+            return fin('discharged')
         if r == 'unknown':
-            rec['undecided'].append(name); return 'undecided'
+            rec['undecided'].append(name); return fin('undecided')
         if r == 'sat-dup':
-            rec.setdefault('violated_dup', []).append(name); return 'violated-dup'
+            # alpha-equivalent to a lane already decided in this body: inherit that lane's final status
+            stt = final.get(dec.last_key, 'violated-dup')
+            if stt == 'undecided': rec['undecided'].append(name + ' (as its twin lane)')
+            elif stt != 'discharged': rec.setdefault('violated_dup', []).append(name)
+            return stt
         # sat: is the counterexample inside a UB-tagged region?
         ubhit = [txt for cond, txt in ex.ub if z3.is_true(subst_model(cond, m))]
+        if ubhit and not ub_refined and ex.ubvals:
+            # refine: out-of-range shift results range over the two x86 lowerings instead of being arbitrary
+            ub_refined = True
+            extra = extra + [z3.Or(*[fv == c for c in cands]) for fv, cands in ex.ubvals]
+            rec['ubnotes'].append(dict(where=name, what=sorted(set(ubhit)) + ['re-proved with the result restricted to the saturating / count-masking x86 lowerings']))
+            continue
         if ubhit:
-            rec['ubnotes'].append(dict(where=name, what=sorted(set(ubhit))))
+            # still failing: believe it only if the native code reproduces it
+            inputs = harness.model_inputs(m, run.desc)
+            rdir = os.path.join(job['replay_root'], '%s__%s' % (k.name, re.sub(r'\W+', '_', name))[:120])
+            raw, why = native_run(k, inputs, rdir)
+            if raw is not None and eval_post_native(ob, native_res(k, raw), m) is False:
+                cex = dict(where=name, inputs={a: (v if not isinstance(v, list) else [hex(x) if not isinstance(x, bool) else x for x in v]) for a, v in inputs.items()}, replay=rdir, native=raw.hex(), ub=sorted(set(ubhit)))
+                json.dump(dict(kernel=k.name, obligation=name, inputs=cex['inputs'], native_result=raw.hex(), property=job['prop'], ub=cex['ub']), open(os.path.join(rdir, 'counterexample.json'), 'w'), indent=1)
+                rec['violations'].append(cex)
+                return fin('violated')
+            rec['ubnotes'].append(dict(where=name, what=sorted(set(ubhit)) + ['region excluded: native result satisfies the post-condition']))
             extra = extra + [z3.Not(cond) for cond, txt in ex.ub if txt in ubhit]
             if attempts > 6:
-                rec['undecided'].append(name + ' (ub regions)'); return 'undecided'
+                rec['undecided'].append(name + ' (ub regions)'); return fin('undecided')
             continue
         inputs = harness.model_inputs(m, run.desc)
         rdir = os.path.join(job['replay_root'], '%s__%s' % (k.name, re.sub(r'\W+', '_', name))[:120])
@@ -246,7 +278,7 @@ def decide_one(dec, rec, k, run, ob, base, pre, goal, known, reported_known, job
         if raw is None:
             cex['why'] = why
             rec['unconfirmed'].append(cex)
-            return 'unconfirmed'
+            return fin('unconfirmed')
         nres = native_res(k, raw)
         ok = eval_post_native(ob, nres, m)
         cex['native'] = raw.hex()
@@ -255,12 +287,12 @@ def decide_one(dec, rec, k, run, ob, base, pre, goal, known, reported_known, job
                   open(os.path.join(rdir, 'counterexample.json'), 'w'), indent=1)
         if ok is False:
             rec['violations'].append(cex)
-            return 'violated'
+            return fin('violated')
         # native result satisfies the post-condition: spurious model (over-approximation or encoder defect)
         cex['why'] = 'model does not reproduce natively (post holds on native result)'
         rec.setdefault('spurious', []).append(cex)
         if attempts > 4:
-            rec['undecided'].append(name + ' (spurious models)'); return 'undecided'
+            rec['undecided'].append(name + ' (spurious models)'); return fin('undecided')
         # block this input assignment and retry
         blk = []
         for d in run.desc:
@@ -332,6 +364,9 @@ def run_property(prop, P, tier, seed, modname, timeout=None, jobs=None, keep=Fal
     shutil.rmtree(replay_root, ignore_errors=True)
     try:
         kernels = P.kernels(tier, seed)
+        only = os.environ.get('XV_ONLY')
+        if only:
+            kernels = [k for k in kernels if re.search(only, k.name)]
         tu_paths, dropped = gen.lower(kernels, work, extra_flags=getattr(P, 'EXTRA_FLAGS', ()), jobs=jobs, fexc=getattr(P, 'FEXC', False))
         t_lower = time.time() - t0
         # parse (parallel) to find which TU has which function, and dedup
@@ -417,14 +452,14 @@ def finish(prop, P, tier, seed, kernels, dropped, missing, recs, wall, t_lower, 
             vk = re.sub(r'\[\d+\]$', '', v['where'])
             if vk in seen_v: continue
             seen_v.add(vk)
-            lines.append('VIOLATION property=%s replay=%s  # %s %s inputs=%s native=%s' % (prop, v['replay'], r['kernel'], v['where'], json.dumps(v['inputs'])[:300], v.get('native', '')[:64]))
+            lines.append('VIOLATION property=%s replay=%s  # %s %s inputs=%s native=%s' % (prop, v['replay'], r['kernel'], v['where'], json.dumps(v['inputs'])[:160], v.get('native', '')[:32]))
         if r['samples'] and len(samples) < 6: samples += r['samples'][:1]
     for kid, (what, where) in knownseen.items():
         lines.append('KNOWN-FINDING: property=%s %s [%s; seen in %d kernel bodies, e.g. %s]' % (prop, what, kid, len(where), where[0]))
     for u in ub[:20]: lines.append('UB-NOTE %s' % u)
     for u in unconf[:20]: lines.append('UNCONFIRMED %s' % u)
     internal = bool(errors)
-    need = getattr(P, 'MIN_COVERED', {}).get(tier, 1)
+    need = getattr(P, 'MIN_COVERED', {}).get(tier, 1) if not os.environ.get('XV_ONLY') else 1
     evidence = {
         'property_id': prop, 'tier': tier, 'seed': seed, 'level': 'model_checking',
         'coverage': {
